@@ -1,7 +1,7 @@
 """C15 — infer_redirection terminates and returns the input or an embedded target."""
 import re
 from urllib.parse import unquote, urljoin
-from pysx.lib import memo_call
+from pysx.lib import memo_call, bounded_call, StepLimit
 from ural.infer_redirection import infer_redirection
 
 _CTRL = re.compile("[\x00-\x1f\x7f-\x9f]")
@@ -11,13 +11,13 @@ _CACHES = re.compile(r"(?:\.ampproject\.org/[cv]/(?:s/)?|bc\.marfeelcache\.com/a
 
 
 def _rec(u):
-    return infer_redirection(u)
+    return bounded_call(infer_redirection, u)
 
 
 def terminates(u):
     try:
         r = memo_call(_rec, u)
-    except RecursionError:
+    except (RecursionError, StepLimit):
         return False
     return isinstance(r, str)
 
@@ -25,7 +25,7 @@ def terminates(u):
 def result_is_a_fixed_point(u):
     try:
         r = memo_call(_rec, u)
-    except RecursionError:
+    except (RecursionError, StepLimit):
         return True           # reported by terminates
     return infer_redirection(r) == r
 
@@ -33,7 +33,7 @@ def result_is_a_fixed_point(u):
 def recursive_equals_iterated_step(u):
     try:
         r = memo_call(_rec, u)
-    except RecursionError:
+    except (RecursionError, StepLimit):
         return True
     cur = u
     for _ in range(12):
